@@ -44,6 +44,9 @@ def prune_undocumented_members(obj, mentry):
     _, _, _, _, _, ct, me, at = mentry
     if (len(ct), len(me), len(at)) != (len(o.constructors), len(o.members), len(o.attributes)):
         return None
+    # the inner-class name list stems from OTHER commands (the inner cpp_class commands): a hidden
+    # undocumented inner class is not listed (Coq: AggFlags.doc_view erases it as well)
+    o.inner_classes = []
     o.constructors = [x for x, m in zip(o.constructors, ct) if m[-1]]
     o.members = [x for x, m in zip(o.members, me) if m[-1]]
     o.attributes = [x for x, m in zip(o.attributes, at) if m[-1]]
@@ -84,6 +87,8 @@ def oracle(model, c):
     b = doc_entries(model, base)
     if a is None or b is None:
         return None
+    if not c["flags"].get("cpp_class", True) and any(k == 8 for k, _ in b[0]):
+        return None       # known finding F9 (also when the case carries no generator AST)
     if a[0] != b[0]:
         i = 0
         while i < min(len(a[0]), len(b[0])) and a[0][i] == b[0][i]:
